@@ -409,6 +409,16 @@ def strategy_for(cc):
         chunk = kgen.weighted([(st.lists(new, min_size=1, max_size=4), 5), (dups, 2), (st.lists(dup, min_size=1, max_size=2), 1),
                                (st.lists(adv, min_size=1, max_size=1), 3)])
         ops = st.lists(chunk, min_size=4, max_size=30 if big else 18).map(lambda cs: [o for c in cs for o in c])
+        if cc == "cubic":
+            # a family that spends a long time in congestion avoidance with seconds passing between ACKs, entered after
+            # timeouts and a triple duplicate, with RTT samples that differ before and after (min-RTT state matters)
+            pair = st.tuples(st.sampled_from([0.5, 1, 2, 3]), st.sampled_from([None, 0.5, 2.0, 1.0])).map(
+                lambda t: [["adv", t[0]], ["new", 1, t[1]]])
+            pre = st.tuples(st.sampled_from([0.05, 0.25, 0.5]), st.sampled_from([2, 4, 8]), st.sampled_from([1.0, 2.0, 3.0])).map(
+                lambda t: [["adv", 0.01], ["new", 1, t[0]], ["adv", t[1]], ["adv", t[1]], ["new", 1, t[2]], ["new", 1, t[2]],
+                           ["dup", 0], ["dup", 0], ["dup", 0]])
+            long_ca = st.tuples(pre, st.lists(pair, min_size=6, max_size=25)).map(lambda t: t[0] + [o for p in t[1] for o in p])
+            ops = kgen.weighted([(ops, 2), (long_ca, 1)])
         return st.fixed_dictionaries({
             "cc": st.just(cc),
             "cwnd0": st.sampled_from([512, 1024, 2048, 700, 1536, 5000]),
